@@ -35,7 +35,9 @@ class History:
         self.served = served
         # some connections are refused by the application's connect handler
         # (with and without always_connect): a refused client is in no room
-        script = {ns: [rng.choice(['accept'] * 7 + ['false', ['refuse', 'no']])
+        # (... or fail with an unexpected exception)
+        script = {ns: [rng.choice(['accept'] * 7 + ['false', ['refuse', 'no'],
+                                                    'crash'])
                        for _ in range(40)] for ns in NAMESPACES + ['/zz']}
         self.cfg = S.default_config(
             kind=kind, served=served,
@@ -336,6 +338,11 @@ class History:
             if res.get('errors'):
                 res['errors'] = [e for e in res['errors'] if e['exc'] not in
                                  ('Injected', 'InjectedBase')]
+        if kind == 'connect' and res.get('errors'):
+            # (a connect handler that crashes: its own exception reaches the
+            # log, nothing else does)
+            res['errors'] = [e for e in res['errors']
+                             if e['exc'] != 'Injected']
         sent = res.get('sent', {})
         if res.get('decode_errors'):
             return self.fail('server sent an undecodable frame', res)
